@@ -452,6 +452,7 @@ pub fn closure_body(ctx: &Arc<RunCtx>, op: OpId, p: &mut Payload) -> u64 {
                 if let Some(owner) = owner { drop_owner(ctx, op, owner); }
             }
             Step::FireStashed => { let ws: Vec<Waker> = ctx.stashed_wakers.lock().unwrap().clone(); for w in ws { w.wake_by_ref(); } }
+            Step::Pause => pause(ctx),
             Step::Yield | Step::Gate(_) | Step::WakeOnly | Step::StashWaker => { /* future-only steps are ignored in closures */ }
         }
     }
@@ -473,12 +474,17 @@ pub fn future_body<'a>(ctx: Arc<RunCtx>, op: OpId, p: &'a mut Payload) -> BoxFut
                 Step::WakeOnly => WakeNow { stash: None }.await,
                 Step::StashWaker => WakeNow { stash: Some(Arc::clone(&ctx)) }.await,
                 Step::FireStashed => { let ws: Vec<Waker> = ctx.stashed_wakers.lock().unwrap().clone(); for w in ws { w.wake_by_ref(); } }
+                Step::Pause => pause(&ctx),
                 Step::Hold(_) | Step::DropMortal => {}
             }
         }
         span.finish();
         ctx.token(op)
     }.boxed()
+}
+
+fn pause(ctx: &RunCtx) {
+    if ctx.native { let t = std::time::Instant::now(); while t.elapsed().as_micros() < 30 { std::hint::spin_loop(); } } else { thread::yield_now(); }
 }
 
 /// Drops an owner of an object (possibly the last one, in which case Desync::drop runs here)
@@ -735,6 +741,12 @@ pub fn run_thread(ctx: &Arc<RunCtx>, acts: Vec<TAct>, mortal: Option<Arc<Obj>>) 
             TAct::HandResumer(_op) => { /* the resumer already lives in ctx.resumers; the firer picks it up */ }
             TAct::ReleaseMortal => {
                 if let Some(owner) = tls.mortal.take() { drop_owner(ctx, NO_OP, owner); }
+            }
+            TAct::PanicRelease => {
+                if let Some(owner) = tls.mortal.take() {
+                    // the owner goes away while this thread is unwinding: Desync::drop then takes its no-panic path
+                    let _ = std::panic::catch_unwind(std::panic::AssertUnwindSafe(|| { let _b = ctx.blocked(NO_OP, PH_DROPOBJ); let _owner = owner; panic!("vh-expected-panic (drop during unwinding)") }));
+                }
             }
             TAct::PipeCreate(p) => crate::pipes::create(ctx, &mut tls, p),
             TAct::Consume(p, n) => crate::pipes::consume(ctx, &mut tls, p, n),
